@@ -83,8 +83,10 @@ impl<K, V> ValueEntry<K, V> {
     pub uninterp spec fn ta(&self) -> Option<Instant>;
     pub uninterp spec fn tm(&self) -> Option<Instant>;
     pub uninterp spec fn dirty(&self) -> bool;
+//@@ SIG file=src/common/concurrent.rs owner=ValueEntry name=is_dirty
     #[verifier::external_body]
     pub fn is_dirty(&self) -> (r: bool) ensures r == self.dirty() { unimplemented!() }
+//@@ END
 }
 impl<K, V> AccessTime for TrioArc<ValueEntry<K, V>> {
     open spec fn sp_last_accessed(&self) -> Option<Instant> { self@.ta() }
@@ -131,10 +133,12 @@ impl Policy {
     pub uninterp spec fn sp_ttl(&self) -> Option<Duration>;
     pub uninterp spec fn sp_tti(&self) -> Option<Duration>;
     /// contract proved in the `config` unit on the real text of src/policy.rs
+//@@ SIG file=src/policy.rs owner=Policy name=new types=loose
     #[verifier::external_body]
     pub fn new(max_capacity: Option<u64>, time_to_live: Option<Duration>, time_to_idle: Option<Duration>) -> (r: Policy)
         ensures r.sp_max_capacity() == max_capacity, r.sp_ttl() == time_to_live, r.sp_tti() == time_to_idle
     { unimplemented!() }
+//@@ END
 }
 } // mod env
 
@@ -286,20 +290,28 @@ impl<K, V, S> Inner<K, V, S> {
     }
 
     // ---- assumed: shared state behind `&self` ----
+//@@ SIG file=src/sync/base_cache.rs owner=Inner name=get
     #[verifier::external_body]
     pub fn get<Q>(&self, key: &Q) -> (r: Option<CacheEntryRef<'_, K, V>>)
     where Arc<K>: Borrow<Q>, Q: Hash + Eq + ?Sized
         ensures match r { Some(e) => self.sp_get(kid(key)) == Some(e@), None => self.sp_get(kid(key)).is_none() }
     { unimplemented!() }
+//@@ END
+//@@ SIG file=src/sync/base_cache.rs owner=Inner name=valid_after
     #[verifier::external_body]
     pub fn valid_after(&self) -> (r: Option<Instant>) ensures r == self.sp_valid_after() { unimplemented!() }
+//@@ END
+//@@ SIG file=src/sync/base_cache.rs owner=Inner name=current_time_from_expiration_clock
     #[verifier::external_body]
     pub fn current_time_from_expiration_clock(&self) -> (r: Instant) ensures r == self.sp_now() { unimplemented!() }
+//@@ END
     /// C07: the watermark handed to the shared cell must be this call's clock reading
+//@@ SIG file=src/sync/base_cache.rs owner=Inner name=set_valid_after
     #[verifier::external_body]
     pub fn set_valid_after(&self, timestamp: Instant)
         requires timestamp == self.sp_now(), //@ [C07]
     { unimplemented!() }
+//@@ END
 
 //@@ FN file=src/sync/base_cache.rs owner=Inner name=time_to_live tags=C05,C17
     fn time_to_live(&self) -> /*@+*/(r:/*@-*/ Option<Duration>/*@+*/)/*@-*/
